@@ -422,7 +422,7 @@ func (sp *specParser) postfix(x SExpr) SExpr {
 				fname = id.Name
 			}
 			for !sp.isOp(")") {
-				if (fname == "istype" || fname == "tagof" || fname == "implements") && (len(args) == 1 || fname == "tagof") {
+				if (fname == "istype" || fname == "as" || fname == "tagof" || fname == "implements") && (len(args) == 1 || fname == "tagof") {
 					args = append(args, sp.typeExpr())
 				} else {
 					args = append(args, sp.expr(0))
